@@ -13,6 +13,17 @@ GenOutcome(e) ==
         ELSE IF ~known \/ ~Table[key].haspos
              THEN (IF e.out.k = "ok" THEN "generated-for-unsupported-country" ELSE "ok")
         ELSE IF ~Table[key].consistent \/ ~Table[key].allfixed THEN "ok"
+        \* a component holds a character whose Unicode upper-casing is not the ASCII one this specification
+        \* applies (an umlaut, a sharp s that becomes SS ...): only validity of what comes back is judged
+        ELSE IF "cmp" \in DOMAIN e /\ ~e.cmp
+             THEN (IF e.out.k = "ok" /\ e.op = "iban.generate" /\ ~Valid(Table, e.out.val)
+                   THEN "generated-iban-invalid" ELSE "ok")
+        \* the BBAN-level builder does not validate what it assembles: with characters no BBAN may hold
+        \* (a hyphen, which str.zfill even treats as a sign) it returns something that is no BBAN - outside
+        \* the property, which speaks of building an IBAN (IBAN.generate refuses such components)
+        ELSE IF e.op = "bban.from_components"
+                /\ ~(AllIn(Supplied(e).bank, IsAlnum) /\ AllIn(Supplied(e).branch, IsAlnum) /\ AllIn(Supplied(e).acct, IsAlnum))
+             THEN "ok"
         ELSE LET sp == Table[key]
                  s == Supplied(e)
                  long == TooLong(sp, s)
